@@ -10,6 +10,7 @@ From Coquelicot Require Import Coquelicot.
 From ADV Require Import Base.Num C04.ProofsBuf C04.ProofsHist.
 From ADV Require Import C06.Model C06.Spec C06.ParamT C06.ProofsAlg C06.ProofsAna C06.ProofsLift C06.ModelBuf C06.ParamT2 C06.ProofsBuf.
 Import ListNotations.
+Local Open Scope nat_scope.
 
 Section Lists.
 Context {A : Type}.
@@ -33,6 +34,9 @@ Proof.
   replace (n - length l) with 0 by lia. simpl. rewrite app_nil_r.
   f_equal. rewrite <- (IH (skipn n l) r) by (rewrite skipn_length; lia). reflexivity.
 Qed.
+
+Lemma skipn_add k : forall j (l : list A), skipn (k + j) l = skipn j (skipn k l).
+Proof. induction k as [|k IH]; intros j l; simpl; [reflexivity|]. destruct l; [rewrite skipn_nil; reflexivity|apply IH]. Qed.
 
 Lemma skipn_app_len (l r : list A) k : length l = k -> skipn k (l ++ r) = r.
 Proof. intros <-. rewrite skipn_app, skipn_all, Nat.sub_diag. reflexivity. Qed.
@@ -71,15 +75,15 @@ Proof.
   rewrite (chunk_app n n bId _ H1).
   rewrite (skipn_app_len bId _ (n * n) H1), (chunk_app n n bA _ H2).
   replace (2 * (n * n)) with (n * n + n * n) by lia.
-  rewrite <- (skipn_skipn (n * n) (n * n)), (skipn_app_len bId _ (n * n) H1), (skipn_app_len bA _ (n * n) H2), (chunk_app n n bL _ H3).
-  replace (3 * (n * n) + n) with (n + (n * n + (n * n + n * n))) by lia.
+  rewrite (skipn_add (n * n) (n * n)), (skipn_app_len bId _ (n * n) H1), (skipn_app_len bA _ (n * n) H2), (chunk_app n n bL _ H3).
+  replace (3 * (n * n) + n) with (n * n + (n * n + (n * n + n))) by lia.
   replace (3 * (n * n)) with (n * n + (n * n + n * n)) by lia.
-  rewrite <- !skipn_skipn.
+  rewrite !skipn_add.
   rewrite (skipn_app_len bId _ (n * n) H1), (skipn_app_len bA _ (n * n) H2), (skipn_app_len bL _ (n * n) H3).
   rewrite (firstn_app_len bB data n H4), (skipn_app_len bB data n H4).
   rewrite (m_inverse_all_bufs_indep (M5.nx X) false mode n None _ (chunk n n data)); [reflexivity|apply chunk_wfm_sq; lia|].
   unfold wf_all_bufs. cbn [M4b.bId M4b.bA M4b.bB M4b.bL].
-  repeat split; intros b E; injection E as <-; try (apply chunk_wfm_sq; lia). exact H4.
+  split; [|split; [|split]]; intros b E; injection E as <-; try (apply chunk_wfm_sq; lia). exact H4.
 Qed.
 
 Theorem backsub_buf_indep n (bufA x0 data : list A) :
@@ -89,8 +93,7 @@ Proof.
   intros H1 H2 Hd. unfold p_backsub_buf, p_backsub_fresh. cbv zeta. f_equal.
   rewrite (chunk_app n n bufA _ H1).
   replace (n * n + n + n * n) with (n * n + (n + n * n)) by lia.
-  replace (n * n + n) with (n + n * n) at 1 by lia.
-  rewrite <- !skipn_skipn.
+  rewrite !skipn_add.
   rewrite (skipn_app_len bufA _ (n * n) H1), (skipn_app_len x0 _ n H2), (firstn_app_len x0 _ n H2).
   apply backsub_run_v2_indep.
   - apply chunk_wfm_sq. exact Hd.
@@ -115,7 +118,7 @@ Hypothesis indep : forall A (X : M5.NumX A) lg (buf data : list A),
 Theorem recycled_jets_gen k o x s (bufs : list (jet R)) :
   length bufs = bl -> dl <= length s -> run_safe pf s x -> stable pf s x ->
   exists J, runJbuf pb k o x bufs s = Some J /\ runR pf x s = Some (map jv J) /\
-            forall q, holds k o (outR pf s q) x (nth q J (jconst 0)).
+            forall q, holds k o (outR pf s q) x (nth q J (jconst 0%R)).
 Proof.
   intros Hb Hd Hs Hst. unfold runJbuf. rewrite indep by (auto; rewrite in_J_length; exact Hd).
   exact (jet_lift_gen pf pfR k o x s Hs Hst).
@@ -135,7 +138,7 @@ Lemma nat_R_refl' n : nat_R n n. Proof. apply nat_R_refl. Qed.
 Theorem chol_recycled_jets n k o x s (bufs : list (jet R)) :
   length bufs = n * n -> n * n <= length s -> run_safe (p_chol4_fresh n) s x -> stable (p_chol4_fresh n) s x ->
   exists J, runJbuf (p_chol4_buf n) k o x bufs s = Some J /\ runR (p_chol4_fresh n) x s = Some (map jv J) /\
-            forall q, holds k o (outR (p_chol4_fresh n) s q) x (nth q J (jconst 0)).
+            forall q, holds k o (outR (p_chol4_fresh n) s q) x (nth q J (jconst 0%R)).
 Proof.
   apply (recycled_jets_gen (p_chol4_buf n) (p_chol4_fresh n) (p_chol4_fresh_R n n (nat_R_refl n)) (n * n) (n * n)).
   intros A X lg buf data. apply chol_buf_indep.
@@ -144,7 +147,7 @@ Qed.
 Theorem detpd_recycled_jets logscale n k o x s (bufs : list (jet R)) :
   length bufs = n * n -> run_safe (p_detpd_fresh logscale n) s x -> stable (p_detpd_fresh logscale n) s x ->
   exists J, runJbuf (p_detpd_buf logscale n) k o x bufs s = Some J /\ runR (p_detpd_fresh logscale n) x s = Some (map jv J) /\
-            forall q, holds k o (outR (p_detpd_fresh logscale n) s q) x (nth q J (jconst 0)).
+            forall q, holds k o (outR (p_detpd_fresh logscale n) s q) x (nth q J (jconst 0%R)).
 Proof.
   intros Hb. 
   apply (recycled_jets_gen (p_detpd_buf logscale n) (p_detpd_fresh logscale n)
@@ -160,7 +163,7 @@ Theorem inv_recycled_jets mode n k o x s (bId bA bL bB : list (jet R)) :
   run_safe (p_inv_fresh mode n) s x -> stable (p_inv_fresh mode n) s x ->
   exists J, runJbuf (p_inv_buf mode n) k o x (bId ++ bA ++ bL ++ bB) s = Some J /\
             runR (p_inv_fresh mode n) x s = Some (map jv J) /\
-            forall q, holds k o (outR (p_inv_fresh mode n) s q) x (nth q J (jconst 0)).
+            forall q, holds k o (outR (p_inv_fresh mode n) s q) x (nth q J (jconst 0%R)).
 Proof.
   intros H1 H2 H3 H4 Hd Hs Hst. unfold runJbuf. rewrite <- !app_assoc.
   rewrite inv_buf_indep by (auto; rewrite in_J_length; exact Hd).
@@ -171,29 +174,29 @@ Theorem backsub_recycled_jets n k o x s (bufA x0 : list (jet R)) :
   length bufA = n * n -> length x0 = n -> n * n <= length s -> run_safe (p_backsub_fresh n) s x ->
   exists J, runJbuf (p_backsub_buf n) k o x (bufA ++ x0) s = Some J /\
             runR (p_backsub_fresh n) x s = Some (map jv J) /\
-            forall q, holds k o (outR (p_backsub_fresh n) s q) x (nth q J (jconst 0)).
+            forall q, holds k o (outR (p_backsub_fresh n) s q) x (nth q J (jconst 0%R)).
 Proof.
   intros H1 H2 Hd Hs. unfold runJbuf. rewrite <- !app_assoc.
   rewrite backsub_buf_indep by (auto; rewrite in_J_length; exact Hd).
   apply (jet_lift_gen (p_backsub_fresh n) (p_backsub_fresh_R n n (nat_R_refl n)) k o x s Hs).
-  exists 1. split; [lra|]. intros y _. reflexivity.
+  exists 1%R. split; [lra|]. intros y _. reflexivity.
 Qed.
 
 (* the hypotheses are satisfiable: 1 x 1 Cholesky into a buffer holding an arbitrary jet *)
-Lemma chol4_1_run x : 0 < x 0%nat -> runE (p_chol4_fresh 1) x [(Some 0%nat, 0)] = Some [ESqrt (ESub (Var 0) (Cst 0))].
+Lemma chol4_1_run x : (0 < x 0%nat)%R -> runE (p_chol4_fresh 1) x [(Some 0%nat, 0%R)] = Some [ESqrt (ESub (Var 0) (Cst 0))].
 Proof.
-  intros H. unfold runE, p_chol4_fresh. cbv -[Rltb evalR].
+  intros H. unfold runE, p_chol4_fresh. cbv -[Rltb evalR IZR].
   assert (E : Rltb (evalR x (ESub (Var 0) (Cst 0))) (evalR x (Cst 0)) = false).
   { unfold Rltb. destruct (Rlt_dec _ _) as [L|]; [cbn in L; lra|reflexivity]. }
   rewrite E. reflexivity.
 Qed.
 
-Example chol_recycled_1x1 k o x (b : jet R) : 0 < x 0%nat ->
-  exists J, runJbuf (p_chol4_buf 1) k o x [b] [(Some 0%nat, 0)] = Some J /\
-            forall q, holds k o (outR (p_chol4_fresh 1) [(Some 0%nat, 0)] q) x (nth q J (jconst 0)).
+Example chol_recycled_1x1 k o x (b : jet R) : (0 < x 0%nat)%R ->
+  exists J, runJbuf (p_chol4_buf 1) k o x [b] [(Some 0%nat, 0%R)] = Some J /\
+            forall q, holds k o (outR (p_chol4_fresh 1) [(Some 0%nat, 0%R)] q) x (nth q J (jconst 0%R)).
 Proof.
   intro H.
-  destruct (chol_recycled_jets 1 k o x [(Some 0%nat, 0)] [b]) as (J & HJ & _ & HH); try (simpl; lia).
+  destruct (chol_recycled_jets 1 k o x [(Some 0%nat, 0%R)] [b]) as (J & HJ & _ & HH); try (simpl; lia).
   - eexists. split; [apply chol4_1_run; exact H|]. repeat constructor. cbn. lra.
   - exists (x 0%nat). split; [exact H|]. intros y Hy. rewrite (chol4_1_run x H). apply chol4_1_run.
     specialize (Hy 0%nat). apply Rabs_def2 in Hy. lra.
